@@ -86,28 +86,33 @@ def _report(err):
 
 
 def mibdump(akind: int, bkind: int, imp: bool, req_b: bool, fmt: int, dry: bool, nowrite: bool, ignore: bool, nodeps: bool,
-            pycbad: bool) -> bool:
+            pycbad: bool, bor: bool) -> bool:
     """
     requires: 0 <= akind <= 2 and 0 <= bkind <= 3 and 0 <= fmt <= 2
     requires: fmt == 1 or not pycbad
+    requires: fmt != 2 or not bor
     """
     akind, bkind, fmt = pick([0, 1, 2], akind), pick([0, 1, 2, 3], bkind), pick([0, 1, 2], fmt)
     imp, req_b, dry, nowrite, ignore, nodeps, pycbad = bool(imp), bool(req_b), bool(dry), bool(nowrite), bool(ignore), bool(nodeps), bool(pycbad)
+    bor = bool(bor)
     with tok._untraced():
-        return _mibdump(akind, bkind, imp, req_b, fmt, dry, nowrite, ignore, nodeps, pycbad)
+        return _mibdump(akind, bkind, imp, req_b, fmt, dry, nowrite, ignore, nodeps, pycbad, bor)
 
 
-def _mibdump(akind, bkind, imp, req_b, fmt, dry, nowrite, ignore, nodeps, pycbad=False):
+BORROWED_TEXT = ('{"borrowed": "C-MIB"}\n', 'borrowed = "C-MIB"\n', 'borrowed\n')
+
+
+def _mibdump(akind, bkind, imp, req_b, fmt, dry, nowrite, ignore, nodeps, pycbad=False, bor=False):
     top = tempfile.mkdtemp(prefix='verif-x20-')
     try:
-        src, dst, bor = os.path.join(top, 'src'), os.path.join(top, 'dst'), os.path.join(top, 'bor')
-        os.mkdir(src), os.mkdir(dst), os.mkdir(bor)
+        src, dst, bor_dir = os.path.join(top, 'src'), os.path.join(top, 'dst'), os.path.join(top, 'bor')
+        os.mkdir(src), os.mkdir(dst), os.mkdir(bor_dir)
         for n, t in STUBS.items():
             open(os.path.join(src, n), 'w').write(t)
         open(os.path.join(src, 'A-MIB'), 'w').write(_mib_a(akind, imp))
         if bkind != 3:
             open(os.path.join(src, 'B-MIB'), 'w').write(_mib_b(bkind))
-        argv = ['--mib-source=file://' + src, '--mib-borrower=' + bor, '--destination-directory=' + dst,
+        argv = ['--mib-source=file://' + src, '--mib-borrower=' + bor_dir, '--destination-directory=' + dst,
                 '--destination-format=' + ('json', 'pysnmp', 'null')[fmt]]
         if pycbad:
             # byte-compilation of every stored module crashes: the cache directory's name is taken by a regular file
@@ -120,8 +125,14 @@ def _mibdump(akind, bkind, imp, req_b, fmt, dry, nowrite, ignore, nodeps, pycbad
         argv.append('A-MIB')
         if req_b:
             argv.append('B-MIB')
+        if bor:
+            # a third requested module without ASN.1 source, of which the borrower directory holds a pre-transformed copy
+            with open(os.path.join(bor_dir, 'C-MIB' + ('.json', '.py', '')[fmt]), 'w') as f:
+                f.write(BORROWED_TEXT[fmt])
+            argv.append('C-MIB')
         rc, err = _run_script('mibdump.py', argv)
         files = sorted(f for f in os.listdir(dst) if os.path.isfile(os.path.join(dst, f)) and f != '__pycache__')
+        contents = dict((f, open(os.path.join(dst, f)).read()) for f in files)
     finally:
         shutil.rmtree(top, ignore_errors=True)
     rep = _report(err)
@@ -139,7 +150,7 @@ def _mibdump(akind, bkind, imp, req_b, fmt, dry, nowrite, ignore, nodeps, pycbad
         bad['B-MIB'] = 'missing'
     if a_parses and imp and bkind != 0 and fmt != 2:
         bad['A-MIB'] = 'failed'                     # its parent OID lives in a module that cannot be used (the null generator resolves nothing)
-    closure = ['A-MIB'] + (['B-MIB'] if b_in else [])
+    closure = ['A-MIB'] + (['B-MIB'] if b_in else []) + (['C-MIB'] if bor else [])
     if pycbad and not (dry or nowrite):
         # every module that gets as far as the writer fails there (and is removed again): reported failed, not on disk
         gate_open = (not bad) or ignore
@@ -170,6 +181,18 @@ def _mibdump(akind, bkind, imp, req_b, fmt, dry, nowrite, ignore, nodeps, pycbad
             return False
     elif files != reported:
         return False
+    # (3b) a borrowed module is written verbatim and reported borrowed exactly when it is on disk (or would be: dry run)
+    if bor:
+        ext_ = ('.json', '.py', '')[fmt]
+        on_disk = ('C-MIB' + ext_) in files
+        listed = 'C-MIB' in rep['borrowed']
+        gate_closed = bool(bad) and not ignore
+        if gate_closed and (listed or on_disk):
+            return False
+        if not gate_closed and not listed:
+            return False
+        if on_disk and contents['C-MIB' + ext_].replace('\r', '') .find(BORROWED_TEXT[fmt].strip()) < 0:
+            return False
     # (4) nothing is written when something failed, unless errors are ignored; with errors ignored the healthy ones are
     if bad and not ignore and files:
         return False
@@ -262,7 +285,7 @@ def conditions(prop, tier):
             if q and (fmt, ak) in ((2, 1), (2, 2), (1, 2)):
                 continue
             out.append(dict(name='C20.exec.mibdump.f%d.a%d' % (fmt, ak), fn='mibdump', fixed=dict(fmt=fmt, akind=ak), timeout=t,
-                            extra_pre=['not nodeps or not dry', 'not pycbad or (not dry and not nowrite)'] if q else [],
+                            extra_pre=['not nodeps or not dry', 'not pycbad or (not dry and not nowrite)', 'not bor or not (nodeps or pycbad)'] if q else [],
                             bounds=X + 'mibdump, format %s: requested module %s, second module healthy / syntax error / semantic error / '
                                    'missing, imported and/or requested or not, --dry-run, --no-mib-writes, --ignore-errors, --no-dependencies, byte-compilation crashing or off: exit status, '
                                    'report categories and destination directory vs the ground truth of the shape'
@@ -276,7 +299,8 @@ def conditions(prop, tier):
 
 
 def selftests(prop):
-    return [('mibdump', dict(akind=0, bkind=0, imp=True, req_b=False, fmt=0, dry=False, nowrite=False, ignore=False, nodeps=False, pycbad=False)),
-            ('mibdump', dict(akind=0, bkind=3, imp=True, req_b=False, fmt=1, dry=False, nowrite=False, ignore=True, nodeps=False, pycbad=False)),
-            ('mibdump', dict(akind=0, bkind=0, imp=True, req_b=True, fmt=1, dry=False, nowrite=False, ignore=False, nodeps=False, pycbad=True)),
+    return [('mibdump', dict(akind=0, bkind=0, imp=True, req_b=False, fmt=0, dry=False, nowrite=False, ignore=False, nodeps=False, pycbad=False, bor=False)),
+            ('mibdump', dict(akind=0, bkind=3, imp=True, req_b=False, fmt=1, dry=False, nowrite=False, ignore=True, nodeps=False, pycbad=False, bor=True)),
+            ('mibdump', dict(akind=0, bkind=0, imp=True, req_b=True, fmt=1, dry=False, nowrite=False, ignore=False, nodeps=False, pycbad=True, bor=False)),
+            ('mibdump', dict(akind=0, bkind=3, imp=True, req_b=False, fmt=0, dry=False, nowrite=False, ignore=False, nodeps=False, pycbad=False, bor=True)),
             ('mibcopy', dict(r1=0, r2=2, rd=1, has_dst=True, swap=False, alias=True, two_names=False))]
